@@ -38,6 +38,7 @@ Don't use for: optimization (MILP), continuous variables (simplex/gradient).
 from collections.abc import Sequence
 from heapq import heapify, heappop, heappush
 
+from solvor import _verif
 from solvor.types import Result, Status
 
 __all__ = ["solve_sat"]
@@ -187,6 +188,8 @@ def solve_sat(
         levels[var] = len(trail_lim)
         reasons[var] = reason_idx
         trail.append(var)
+        if _verif.ENABLED:  # pragma: no cover
+            _verif.emit("assign", lit=var if val else -var, lvl=len(trail_lim), reason=reason_idx)
 
     def unassign_to(level):
         nonlocal prop_head
@@ -201,6 +204,8 @@ def solve_sat(
                 heappush(var_heap, (-activity[var], var))
                 in_heap[var] = True
         prop_head = len(trail)
+        if _verif.ENABLED:  # pragma: no cover
+            _verif.emit("backtrack", to=level, trail=[v if vals[v] == 1 else -v for v in trail])
 
     def find_pure_literals():
         pos_count = [0] * (n_vars + 1)
@@ -371,6 +376,8 @@ def solve_sat(
                 keep_lbd.append(lbd_scores[orig_idx])
 
         learned, lbd_scores = keep, keep_lbd
+        if _verif.ENABLED:  # pragma: no cover
+            _verif.emit("reduce_db", kept=[list(c) for c in learned])
 
         for v in range(1, n_vars + 1):
             watch_pos[v] = [c for c in watch_pos[v] if c < len(clauses)]
@@ -429,6 +436,8 @@ def solve_sat(
                 return Result(None, 0, decisions, propagations, Status.INFEASIBLE)
 
             learned_clause, bt_level, lbd = analyze(conflict)
+            if _verif.ENABLED:  # pragma: no cover
+                _verif.emit("learn", clause=learned_clause, bt=bt_level, lbd=lbd, conflict=conflict, lvl=dec_level)
 
             if learned_clause is None:
                 if all_solutions:
@@ -457,6 +466,8 @@ def solve_sat(
 
             if conflicts_since_restart >= next_restart:
                 if restarts >= max_restarts:
+                    if _verif.ENABLED:  # pragma: no cover
+                        _verif.emit("max_iter", budget="restarts", conflicts=conflicts, restarts=restarts)
                     if all_solutions:
                         return Result(
                             all_solutions[0],
@@ -470,7 +481,11 @@ def solve_sat(
 
                 restarts += 1
                 luby_idx += 1
+                if _verif.ENABLED:  # pragma: no cover
+                    _verif.emit("restart", n=restarts, luby_idx=luby_idx)
                 next_restart = luby_factor * luby(luby_idx)
+                if _verif.ENABLED:  # pragma: no cover
+                    _verif.emit("restart_scheduled", next=next_restart)
                 conflicts_since_restart = 0
                 unassign_to(0)
                 dec_level = 0
@@ -484,6 +499,8 @@ def solve_sat(
         if var == 0:
             sol = {v: vals[v] == 1 for v in range(1, n_vars + 1) if vals[v] != UNDEF}
             all_solutions.append(sol)
+            if _verif.ENABLED:  # pragma: no cover
+                _verif.emit("model", lits=[v if b else -v for v, b in sol.items()])
 
             if len(all_solutions) >= solution_limit:
                 if solution_limit == 1:
@@ -494,6 +511,8 @@ def solve_sat(
             clause_idx = len(clauses) + len(learned)
             learned.append(blocking)
             lbd_scores.append(n_vars)
+            if _verif.ENABLED:  # pragma: no cover
+                _verif.emit("block", clause=list(blocking), idx=clause_idx)
 
             if len(blocking) >= 2:
                 add_watch(blocking[0], clause_idx)
@@ -509,10 +528,14 @@ def solve_sat(
         decisions += 1
         dec_level += 1
         trail_lim.append(len(trail))
+        if _verif.ENABLED:  # pragma: no cover
+            _verif.emit("decide", var=var, lvl=dec_level, conflicts=conflicts)
         assign(var, phase[var], -1)
         conflict = propagate()
 
         if conflicts >= max_conflicts:
+            if _verif.ENABLED:  # pragma: no cover
+                _verif.emit("max_iter", budget="conflicts", conflicts=conflicts, restarts=restarts)
             if all_solutions:
                 return Result(
                     all_solutions[0],
